@@ -236,6 +236,22 @@ def chern_case(ctx, rng, idx, state):
         if int(round(vals[fine])) != -chern:
             ctx.violation("AHC_chern!=-FHS_chern", f"sigma_xy*c/(e^2/h) = {vals[fine]:.6f} but the lattice Chern number of the "
                           f"occupied bands is {chern} (documented: O = -e^2/hbar int[dk] Omega f)", wit)
+        # the same integral through adaptive refinement on the full grid (use_irred_kpt=False): a locally refined partition of the BZ is
+        # still a partition, so the result stays at the integer; only the spectral accuracy of the uniform grid is lost (deviations up to
+        # 7e-3 were observed on well-resolved models, threshold 5e-2; judged only when the uniform 48^2 grid is within 1e-3)
+        if abs(vals[48] - round(vals[48])) < 1e-3 and idx % 2 == 0:
+            from wannierberri import calculators as calc
+            from wannierberri.grid import Grid
+            res = runner.run(system, Grid(system, NK=(48, 48, 1)),
+                             {"ahc": calc.static.AHC(Efermi=np.array([Ef, Ef + 1e-3]), kwargs_formula={"external_terms": False}, save_mode="")},
+                             adpt_num_iter=3, adpt_fac=4, adpt_mesh=2)
+            vr = res.results["ahc"].data[0][2] * abs(system.real_lattice[2, 2]) * 1e-10 / E2_OVER_H
+            ctx.ev()
+            ctx.dev("AHC_gap_not_quantised_after_adaptive_refinement", abs(vr - round(vals[48])) / 5e-2)
+            if abs(vr - round(vals[48])) >= 5e-2:
+                ctx.violation("AHC_gap_not_quantised_after_adaptive_refinement", f"sigma_xy*c/(e^2/h) = {vr!r} after 3 refinement iterations of the "
+                              f"48^2 grid ({vals[48]!r} without refinement)", wit)
+            ctx.count("chern_refined_runs")
         ctx.count("chern_models")
         ctx.count("chern_nonzero" if chern != 0 else "chern_trivial")
         ctx.count(("haldane_" if desc["family"].startswith("Haldane") else "random_") + ("topological" if chern else "trivial"))
